@@ -8,7 +8,7 @@ MC = "SPECIFICATION Spec\nCONSTANTS\n  MaxEntries = %d\n  MaxDepth = 2\nINVARIAN
 ASSUMPTIONS = [
     "The input step sequence is read by the harness from the raw YAML nodes with plain yaml.v3 (not the code under test); when it cannot be read unambiguously (yaml.v3 rejects the bytes, duplicate keys, non-core tags/timestamps) only totality, marshalling and warning accounting are judged for that input.",
     "Alias expansion size is bounded: inputs whose node graph expands to more than 2e5 nodes are skipped (stated in the property).",
-    "Each Parse runs under recover with an 8 s deadline; byte-level inputs are seeded mutations of a corpus (coverage-guided fuzzing is not used in the registered tiers).",
+    "Each Parse runs in a worker child process under recover with a deadline (a stack overflow or a hang is then an observed crash / timeout of that input, not of the harness); byte-level inputs are seeded mutations of a corpus (coverage-guided fuzzing is not used in the registered tiers).",
     "yaml.v3's scanner is observed, not modelled.",
 ]
 
@@ -18,7 +18,7 @@ def src_of(ev):
 
 
 def sig(ev):
-    s = {"panic": ev["panic"], "timeout": ev["timeout"], "outcome": ev["outcome"], "jsonok": ev["jsonok"], "yamlok": ev["yamlok"],
+    s = {"panic": ev["panic"], "timeout": ev["timeout"], "crash": ev.get("crash", False), "outcome": ev["outcome"], "jsonok": ev["jsonok"], "yamlok": ev["yamlok"],
          "stepsislist": ev["stepsislist"], "accounting": ev["nunknown"] == ev["nfallback"], "nonfinite": ev["nonfinite"]}
     s["ws_multiline"] = bool(ev.get("wsmultiline"))
     je, ye = ev.get("jsonerr", ""), ev.get("yamlerr", "")
@@ -28,8 +28,8 @@ def sig(ev):
 
 
 def desc(ev):
-    return "Parse of %r (%s): outcome=%s panic=%s timeout=%s json_ok=%s yaml_ok=%s unknown=%d fallbacks_reported=%d kinds=%s %s%s" % (
-        src_of(ev)[:300], ev["origin"], ev["outcome"], ev.get("panicmsg", ev["panic"]), ev["timeout"], ev["jsonok"], ev["yamlok"], ev["nunknown"],
+    return "Parse of %r (%s): outcome=%s panic=%s timeout=%s crash=%s json_ok=%s yaml_ok=%s unknown=%d fallbacks_reported=%d kinds=%s %s%s" % (
+        src_of(ev)[:300], ev["origin"], ev["outcome"], ev.get("panicmsg", ev["panic"]), ev["timeout"], ev.get("crash"), ev["jsonok"], ev["yamlok"], ev["nunknown"],
         ev["nfallback"], json.dumps(ev["kinds"])[:200], ev.get("jsonerr", ""), ev.get("yamlerr", ""))
 
 
